@@ -605,6 +605,11 @@ func (g *gctx) assoc(w wty, d int, lo, hi *big.Int) (ex, bool) {
 	}
 	var parts []ex
 	acc := interval.IntRange{}
+	// on base.u64, sometimes start with two constants just below 2^32: C literals
+	// of type `unsigned int` whose sum / product needs 64 bits
+	// (fixes/C04-assoc-leading-constants.patch)
+	leadConst := w.bits == 64 && (op == "+" || op == "*") && g.r.Intn(3) == 0
+	c31, c32 := new(big.Int).Lsh(bi(1), 31), new(big.Int).Sub(new(big.Int).Lsh(bi(1), 32), bi(1))
 	for i := 0; i < n; i++ {
 		var p ex
 		switch op {
@@ -620,13 +625,23 @@ func (g *gctx) assoc(w wty, d int, lo, hi *big.Int) (ex, bool) {
 			if room.Cmp(l) < 0 {
 				return ex{}, false
 			}
-			p = g.genNum(w, d-1, l, g.randBig(l, room))
+			if leadConst && i < 2 && l.Cmp(c31) <= 0 && c31.Cmp(room) <= 0 {
+				p = g.constEx(c31, minB(room, c32))
+				g.count("op:assoc-leading-constants")
+			} else {
+				p = g.genNum(w, d-1, l, g.randBig(l, room))
+			}
 		case "*":
 			room := new(big.Int).Set(hi)
 			if i > 0 && acc[1].Sign() > 0 {
 				room.Quo(hi, acc[1])
 			}
-			p = g.genNum(w, d-1, zero, minB(room, w.max()))
+			if leadConst && i < 2 && c31.Cmp(room) <= 0 {
+				p = g.constEx(c31, minB(room, c32))
+				g.count("op:assoc-leading-constants")
+			} else {
+				p = g.genNum(w, d-1, zero, minB(room, w.max()))
+			}
 		case "&":
 			if i == 0 {
 				p = g.genNum(w, d-1, zero, hi)
